@@ -237,36 +237,28 @@ theorem ld_not_ret (i : Gen.Instr) (h : ldInstr i = true) : isRet i = false := b
   simp only [ldInstr, Bool.and_eq_true, Bool.not_eq_true'] at h
   exact h.1.2
 
-/-- an instruction of a program of the class is an instruction of `ldInstr`, or the `ret` at the end -/
-theorem ldr_cases (app : App) (h : StraightLineLdRet app = true) (k : Nat) (i : Gen.Instr) (hi : app.instrs[k]? = some i) :
-    ldInstr i = true ∨ (isRet i = true ∧ k + 1 = app.instrs.length) := by
-  simp only [StraightLineLdRet, Bool.and_eq_true, List.all_eq_true] at h
-  have hk : k < app.instrs.length := by
-    rcases Nat.lt_or_ge k app.instrs.length with h' | h'
-    · exact h'
-    · rw [List.getElem?_eq_none h'] at hi; cases hi
-  have h2 := h.2 i (List.mem_of_getElem? hi)
+/-- an instruction of a program of the class is an instruction of `ldInstr`, or a `ret` -/
+theorem ldr_cases (app : App) (h : StraightLineLdR app = true) (k : Nat) (i : Gen.Instr) (hi : app.instrs[k]? = some i) :
+    ldInstr i = true ∨ isRet i = true := by
+  simp only [StraightLineLdR, List.all_eq_true] at h
+  have h2 := h i (List.mem_of_getElem? hi)
   cases hr : isRet i with
   | false =>
     left
     simp only [ldrInstr, Bool.and_eq_true, Bool.not_eq_true'] at h2
     simp only [isRet] at hr
     simp only [ldInstr, h2.1.1, h2.1.2, h2.2, hr, Bool.not_false, Bool.and_self]
-  | true =>
-    right
-    refine ⟨rfl, ?_⟩
-    apply Classical.byContradiction
-    intro hne
-    have hd : app.instrs.dropLast[k]? = some i := by
-      rw [List.dropLast_eq_take, List.getElem?_take]
-      simp only [show k < app.instrs.length - 1 by omega, if_true]
-      exact hi
-    have := ld_not_ret i (h.1 i (List.mem_of_getElem? hd))
-    rw [hr] at this; cases this
+  | true => exact Or.inr rfl
 
-theorem ldr_of_mem (app : App) (h : StraightLineLdRet app = true) (i : Gen.Instr) (hi : i ∈ app.instrs) : ldrInstr i = true := by
-  simp only [StraightLineLdRet, Bool.and_eq_true, List.all_eq_true] at h
-  exact h.2 i hi
+/-- no `ret` among the instructions `0 … m-1` -/
+def NoRetBefore (app : App) (m : Nat) : Prop := ∀ (k : Nat) (i : Gen.Instr), k < m → app.instrs[k]? = some i → isRet i = false
+
+theorem NoRetBefore.mono {app : App} {m m' : Nat} (h : NoRetBefore app m) (hm : m' ≤ m) : NoRetBefore app m' :=
+  fun k i hk hi => h k i (by omega) hi
+
+theorem ldr_of_mem (app : App) (h : StraightLineLdR app = true) (i : Gen.Instr) (hi : i ∈ app.instrs) : ldrInstr i = true := by
+  simp only [StraightLineLdR, List.all_eq_true] at h
+  exact h i hi
 
 /-- the unpipelined machine stops at a `ret` -/
 theorem ret_step (app : App) (hsm : app.instrs.length < 250) (a : Arch) (j : Nat) (i : Gen.Instr) (hpc : a.pc = pcOf j)
@@ -312,16 +304,16 @@ theorem seqL_ret {app : App} {k : Nat} {a0 a : Arch} {c : Model.Seq.StepCost} (h
 structure ProgLd (app : App) (a0 : Arch) : Prop where
   small : app.instrs.length < 250
   nofwd : ∀ g ∈ app.instrs, fwdOf g = {}
-  cls : StraightLineLdRet app = true
+  cls : StraightLineLdR app = true
   pc0 : a0.pc = 0#32
   rat0 : a0.ctx.rat = false
   tx0 : a0.ctx.Transaction.entries = []
-  loads : ∀ j a, seqL app j a0 = some a → LoadsOk app a
+  loads : ∀ j a, seqL app j a0 = some a → NoRetBefore app j → LoadsOk app a
   z0 : GoMap.get1 a0.ctx.Registers Gen.Reg.Zero = 0#32
 
 /-- one more step of the unpipelined run: the state before, the instruction, the bytes it reads, its result -/
 theorem seq_succ (app : App) (a0 : Arch) (hp : ProgLd app a0) (j : Nat) (a a' : Arch)
-    (hj : seqL app j a0 = some a) (hpc : a.pc = pcOf j) (hjl : j ≤ app.instrs.length)
+    (hj : seqL app j a0 = some a) (hpc : a.pc = pcOf j) (hjl : j ≤ app.instrs.length) (hnr : NoRetBefore app j)
     (hj' : seqL app (j + 1) a0 = some a') :
     ∃ i bytes e, app.instrs[j]? = some i ∧ (i.memoryRead a.ctx 0#32).mapM (Model.Seq.readMem a.ctx.Memory) = some bytes ∧
       i.run a.ctx app.labels a.pc bytes 0#32 = .ok e ∧
@@ -330,8 +322,8 @@ theorem seq_succ (app : App) (a0 : Arch) (hp : ProgLd app a0) (j : Nat) (a a' : 
   simp only [seqL, hj, Option.bind_some, seqNextL] at hj'
   rcases Nat.lt_or_ge j app.instrs.length with hlt | hge
   · obtain ⟨i, hi⟩ := get_lt app.instrs j hlt
-    rcases ldr_cases app hp.cls j i hi with hld | ⟨hret, _⟩
-    · obtain ⟨bytes, hb, h1, h2, h3⟩ := ld_step app hsm a j i hpc hi hld (hp.loads j a hj)
+    rcases ldr_cases app hp.cls j i hi with hld | hret
+    · obtain ⟨bytes, hb, h1, h2, h3⟩ := ld_step app hsm a j i hpc hi hld (hp.loads j a hj hnr)
       cases hr : i.run a.ctx app.labels a.pc bytes 0#32 with
       | ok e =>
         obtain ⟨c, hc⟩ := h1 e hr
@@ -360,21 +352,23 @@ theorem seq_succ (app : App) (a0 : Arch) (hp : ProgLd app a0) (j : Nat) (a a' : 
 
 /-- the states of the unpipelined run of a straight-line program: pc, memory, flags -/
 theorem seq_facts (app : App) (a0 : Arch) (hp : ProgLd app a0) : ∀ (j : Nat) (a : Arch), seqL app j a0 = some a →
+    NoRetBefore app (j - 1) →
     a.pc = pcOf j ∧ j ≤ app.instrs.length ∧ a.ctx.Memory = a0.ctx.Memory ∧ a.ctx.rat = false ∧ a.ctx.Transaction.entries = [] := by
   intro j
   induction j with
   | zero =>
-    intro a h
+    intro a h _
     simp only [seqL, Option.some.injEq] at h
     subst h
     exact ⟨by rw [hp.pc0]; rfl, Nat.zero_le _, rfl, hp.rat0, hp.tx0⟩
   | succ j ih =>
-    intro a' h
+    intro a' h hnr
+    have hnr' : NoRetBefore app j := hnr
     cases hj : seqL app j a0 with
     | none => simp only [seqL, hj, Option.bind_none] at h; cases h
     | some a =>
-      obtain ⟨f1, f2, f3, f4, f5⟩ := ih a hj
-      obtain ⟨i, bytes, e, hi, _, _, rfl⟩ := seq_succ app a0 hp j a a' hj f1 f2 h
+      obtain ⟨f1, f2, f3, f4, f5⟩ := ih a hj (hnr'.mono (by omega))
+      obtain ⟨i, bytes, e, hi, _, _, rfl⟩ := seq_succ app a0 hp j a a' hj f1 f2 hnr' h
       have hlt : j < app.instrs.length := by
         rcases Nat.lt_or_ge j app.instrs.length with h' | h'
         · exact h'
@@ -383,20 +377,21 @@ theorem seq_facts (app : App) (a0 : Arch) (hp : ProgLd app a0) : ∀ (j : Nat) (
 
 /-- `x0` is 0 along the unpipelined run -/
 theorem seq_zero (app : App) (a0 : Arch) (hp : ProgLd app a0) : ∀ (j : Nat) (a : Arch), seqL app j a0 = some a →
-    GoMap.get1 a.ctx.Registers Gen.Reg.Zero = 0#32 := by
+    NoRetBefore app (j - 1) → GoMap.get1 a.ctx.Registers Gen.Reg.Zero = 0#32 := by
   intro j
   induction j with
   | zero =>
-    intro a h
+    intro a h _
     simp only [seqL, Option.some.injEq] at h
     subst h; exact hp.z0
   | succ j ih =>
-    intro a' h
+    intro a' h hnr
+    have hnr' : NoRetBefore app j := hnr
     cases hj : seqL app j a0 with
     | none => simp only [seqL, hj, Option.bind_none] at h; cases h
     | some a =>
-      obtain ⟨f1, f2, _⟩ := seq_facts app a0 hp j a hj
-      obtain ⟨i, bytes, e, hi, _, he, rfl⟩ := seq_succ app a0 hp j a a' hj f1 f2 h
+      obtain ⟨f1, f2, _⟩ := seq_facts app a0 hp j a hj (hnr'.mono (by omega))
+      obtain ⟨i, bytes, e, hi, _, he, rfl⟩ := seq_succ app a0 hp j a a' hj f1 f2 hnr' h
       simp only
       split
       · rename_i hrc
@@ -404,8 +399,8 @@ theorem seq_zero (app : App) (a0 : Arch) (hp : ProgLd app a0) : ∀ (j : Nat) (a
         split
         · rename_i heq
           exact run_zero i a.ctx app.labels a.pc bytes 0#32 e he (eq_of_beq heq).symm hrc
-        · exact ih a hj
-      · exact ih a hj
+        · exact ih a hj (hnr'.mono (by omega))
+      · exact ih a hj (hnr'.mono (by omega))
 
 /-- an instruction of the class, handed the bytes of its addresses, returns -/
 theorem ld_run_total (i : Gen.Instr) (h : ldInstr i = true) (c : Model.Context) (labels : GoMap String Word) (pc : Word) (seq : Word)
@@ -416,18 +411,19 @@ theorem ld_run_total (i : Gen.Instr) (h : ldInstr i = true) (c : Model.Context) 
   | false => exact ld_run_ok_nomem i h hm c labels pc bytes seq
 
 /-- **the unpipelined run of a program of the class never stops before the end** -/
-theorem seq_total (app : App) (a0 : Arch) (hp : ProgLd app a0) : ∀ j, j ≤ app.instrs.length →
+theorem seq_total (app : App) (a0 : Arch) (hp : ProgLd app a0) : ∀ j, j ≤ app.instrs.length → NoRetBefore app (j - 1) →
     ∃ a, seqL app j a0 = some a := by
   intro j
   induction j with
-  | zero => intro _; exact ⟨a0, rfl⟩
+  | zero => intro _ _; exact ⟨a0, rfl⟩
   | succ j ih =>
-    intro hj
-    obtain ⟨a, ha⟩ := ih (by omega)
-    obtain ⟨f1, _⟩ := seq_facts app a0 hp j a ha
+    intro hj hnr
+    have hnr' : NoRetBefore app j := hnr
+    obtain ⟨a, ha⟩ := ih (by omega) (hnr'.mono (by omega))
+    obtain ⟨f1, _⟩ := seq_facts app a0 hp j a ha (hnr'.mono (by omega))
     obtain ⟨i, hi⟩ := get_lt app.instrs j (by omega)
-    rcases ldr_cases app hp.cls j i hi with hld | ⟨hret, _⟩
-    · obtain ⟨bytes, hb, h1, _⟩ := ld_step app hp.small a j i f1 hi hld (hp.loads j a ha)
+    rcases ldr_cases app hp.cls j i hi with hld | hret
+    · obtain ⟨bytes, hb, h1, _⟩ := ld_step app hp.small a j i f1 hi hld (hp.loads j a ha hnr')
       obtain ⟨e, he⟩ := ld_run_total i hld a.ctx app.labels a.pc 0#32 a.ctx.Memory bytes hb
       obtain ⟨cst, hc⟩ := h1 e he
       exact ⟨_, seqL_next ha hc⟩
@@ -436,11 +432,11 @@ theorem seq_total (app : App) (a0 : Arch) (hp : ProgLd app a0) : ∀ j, j ≤ ap
 
 /-- a step of the unpipelined run changes only the register its instruction writes -/
 theorem seq_frame (app : App) (a0 : Arch) (hp : ProgLd app a0) (j : Nat) (a a' : Arch) (i : Gen.Instr)
-    (hj : seqL app j a0 = some a) (hj' : seqL app (j + 1) a0 = some a')
+    (hj : seqL app j a0 = some a) (hj' : seqL app (j + 1) a0 = some a') (hnr : NoRetBefore app j)
     (hi : app.instrs[j]? = some i) (r : Reg) (hr : r ∉ i.writeRegisters) :
     GoMap.get1 a'.ctx.Registers r = GoMap.get1 a.ctx.Registers r := by
-  obtain ⟨f1, f2, _⟩ := seq_facts app a0 hp j a hj
-  obtain ⟨i', bytes, e, hi', _, he, rfl⟩ := seq_succ app a0 hp j a a' hj f1 f2 hj'
+  obtain ⟨f1, f2, _⟩ := seq_facts app a0 hp j a hj (hnr.mono (by omega))
+  obtain ⟨i', bytes, e, hi', _, he, rfl⟩ := seq_succ app a0 hp j a a' hj f1 f2 hnr hj'
   rw [hi] at hi'
   simp only [Option.some.injEq] at hi'
   subst hi'
